@@ -704,6 +704,24 @@ func runC01(c *Ctx) {
 					continue
 				}
 				required, fromMaker, entriesN := false, false, 0
+				// the table may be built by an unexported helper that returns it
+				if hc, ok := mapVal.(*ssa.Call); ok {
+					if g := hc.Call.StaticCallee(); g != nil && load.FuncInRepo(g) && g.Blocks != nil {
+						var made ssa.Value
+						one := true
+						for _, gb := range g.Blocks {
+							if ret, ok := gb.Instrs[len(gb.Instrs)-1].(*ssa.Return); ok && len(ret.Results) > 0 {
+								if made != nil && made != ret.Results[0] {
+									one = false
+								}
+								made = ret.Results[0]
+							}
+						}
+						if _, isMM := made.(*ssa.MakeMap); isMM && one {
+							mapVal = made
+						}
+					}
+				}
 				if mm, ok := mapVal.(*ssa.MakeMap); ok {
 					for _, ref := range *mm.Referrers() {
 						mu, ok := ref.(*ssa.MapUpdate)
